@@ -27,7 +27,7 @@ def _opt(x):
     return "-" if x is None else str(x)
 
 
-def encode(doc, oracle):
+def encode(doc):
     adm = doc.adm
     idx = {k: {id(e): i for i, e in enumerate(getattr(adm, D.LISTS[k]))} for k in D.KINDS}
 
@@ -113,38 +113,10 @@ def encode(doc, oracle):
     atus = ["%s %s %s %s" % (_opt(t.trackIndex), _opt(ref("apf", t.audioPackFormat)),
                              _opt(ref("atf", t.audioTrackFormat)), _opt(ref("acf", t.audioChannelFormat)))
             for t in adm.audioTrackUIDs]
-    orc = []
-    for sols in oracle:
-        orc.append("/".join((",".join(str(i) for i in sol) or "e") for sol in sols) or "-")
-    return " | ".join([head] + [" ; ".join(x) for x in (ps, cs, os_, pks, chs, ss, tfs, atus, orc)])
+    return " | ".join([head] + [" ; ".join(x) for x in (ps, cs, os_, pks, chs, ss, tfs, atus)])
 
 
 # --------------------------------------------------------------------------------------
-# real code with the allocator observed (correspondence only)
-
-
-def run_real_observed(doc):
-    """run the real code with `allocate_packs` wrapped so that the solutions it yields are recorded as lists of
-    indices into `_PackAllocator.packs` (the input of the abstract allocator in the model)."""
-    from ear.core.select_items import select_items as SI
-
-    calls = []
-    orig = SI.allocate_packs
-
-    def wrapped(packs, tracks, pack_refs, num_silent_tracks):
-        rec = []
-        calls.append(rec)
-        pos = {id(p): i for i, p in enumerate(packs)}
-        for sol in orig(packs, tracks, pack_refs, num_silent_tracks):
-            rec.append([pos[id(a.pack)] for a in sol])
-            yield sol
-
-    SI.allocate_packs = wrapped
-    try:
-        out = D.run_real(doc)
-    finally:
-        SI.allocate_packs = orig
-    return out, calls
 
 
 def real_class(r):
@@ -256,7 +228,9 @@ class C14(Spec):
     props_module = "Earverif.Props.C14"
     theorems = tuple("Earverif.Validate." + t for t in (
         "select_no_internal_partial", "validate_no_internal_partial", "allocator_init_no_internal",
-        "conflicting_is_error", "ambiguous_is_error", "diagnostics_total", "raiseError_adm",
+        "resolved_iff_unique_valid_partial", "conflicting_is_error", "ambiguous_is_error", "allocProblem_wf",
+        "processState_decided", "processState_noInt", "packChannels_nodup",
+        "diagnostics_total", "raiseError_adm", "empty_pack_rejected_though_spec_valid",
         "multitree_sound", "multitreeSound_holds", "mtDfs_ok",
         "validateMatrixTypes_noInt", "validateEncodeRef_noInt", "validateMatrixPack_ok", "patterns_noInt", "patterns_ok",
         "matrixTrackSpec_noInt", "renderingItems_noInt",
@@ -274,10 +248,13 @@ class C14(Spec):
         "output_pack / output_channel_allocation, _get_rendering_items incl. _get_pack_format_path, the HOA "
         "get_single_param calls and _get_alternativeValueSet); references are list indices, identity comparison is "
         "index (token) equality",
-        "pack_allocation.allocate_packs is abstract (oracle: per call the first <= 2 solutions as indices into "
-        "_PackAllocator.packs, recorded from the real allocator by wrapping it during the correspondence run); its "
-        "specification is property C07's subject; the model uses that every selected track occurs in a solution and "
-        "that an allocated pack's allocation lists exactly the channels of that allocation pack",
+        "the pack allocator inside the model is C07's Lean model Earverif.PackAlloc (allocate_packs and the decision "
+        "of select_pack_mapping; its own correspondence and theorems alloc_sound / alloc_complete / alloc_nodup / "
+        "accept_iff_unique are property C07); this model builds the allocation problem from the document "
+        "(allocProblem: one AllocationPack per entry of _PackAllocator.packs with identity = position, "
+        "AllocationChannel pack_formats = pack path / [matrix pack] / [encode pack], one AllocationTrackUID per "
+        "selected track, the object's pack references or None for CHNA-only, the number of silent tracks); the "
+        "outcome comparison with the real code no longer replays the real allocator's solutions",
         "graph walks in the model use fuel = number of elements (+1/+2); equality with Python's unbounded recursion "
         "on documents that passed the loop validations is not proved (checked by the correspondence)",
         "audioProgramme ids increase with list position (generate_ids), so min(key=id) is the first programme",
@@ -450,7 +427,7 @@ class C14(Spec):
             if doc is None:
                 ctx.count("fault-not-applicable")
                 continue
-            r, calls = run_real_observed(doc)
+            r = D.run_real(doc)
             cls = real_class(r)
             nf = sum(1 for f in faults if f[0] != "order")
             ctx.count("faults:%d" % nf)
@@ -466,7 +443,7 @@ class C14(Spec):
                 ctx.count("exception:" + r["exc"])
             self._predicate(ctx, rec, faults, doc, r)
             try:
-                line = encode(doc, calls)
+                line = encode(doc)
             except Outside as e:
                 ctx.count("outside-model:" + str(e))
                 ctx.case((rec, faults, "search-only"), nf > 0)
@@ -604,31 +581,39 @@ FORMER_FAMILIES = (
 
 REGISTRY = dict(
     text="PARTIAL: Lean theorem Earverif.Validate.select_no_internal_partial proves, for every well-scoped document "
-    "graph (Matrix packs and alternativeValueSets included), programme/complementary selection and allocator "
-    "outcome, that the model of select_rendering_items never ends in a non-ADM exception, by a chain of 'after "
-    "_validate_X succeeded, step Y is total' lemmas: validate_structure with all thirteen _validate_* functions "
+    "graph (Matrix packs and alternativeValueSets included) and every programme/complementary selection, that the "
+    "model of select_rendering_items never ends in a non-ADM exception, by a chain of 'after _validate_X succeeded, "
+    "step Y is total' lemmas: validate_structure with all thirteen _validate_* functions "
     "(validate_no_internal_partial: no hypothesis; every matrix.type_of, [encode_apf] = ..., [block_format] = ... and "
     "'assert obj is not None' is preceded by its guard in any declaration order), the allocator's packs "
     "(allocator_init_no_internal: wrap_matrix_pack), complementary objects, programme/content/object traversal, "
-    "track validation, allocation outcome none/one/many, raise_error diagnostics, Regular/Matrix "
-    "output_channel_allocation (matrixTrackSpec_noInt) and rendering-item construction incl. _get_pack_format_path "
-    "(multitree_sound: multitree validation accepts => each channel on exactly one pack path, proved) and "
-    "_get_alternativeValueSet (avs_assert_total); conflicting_is_error / ambiguous_is_error (0 or >=2 allocations: "
-    "never items, never a non-ADM exception); diagnostics_total (possible_reference_errors is total for both "
-    "referencing styles). _partial only because message formatting, attrs validators (cross-class references), "
-    "recursion depth and a few parameter values the generators leave unset (rtime/duration, nfcRefDist, "
-    "absoluteDistance) are outside the model; the allocator itself is abstract (C07). The model is tied to the "
-    "code on every run by a fault injector (every single fault at every site + sampled double faults on 19 kinds of "
-    "generated documents in both referencing styles, all inside the model) comparing items count / AdmError message "
-    "family / exception type; the direct predicates (only AdmError escapes; items only when an independent "
-    "brute-force count of the allocations is exactly 1) run on the same stream and, in the thorough tier, on triple "
-    "faults.",
+    "track validation, select_pack_mapping with the pack allocator itself (C07's Lean model of allocate_packs called "
+    "on the problem built from the document: no oracle, no hypothesis on the allocator), raise_error diagnostics, "
+    "Regular/Matrix output_channel_allocation (matrixTrackSpec_noInt) and rendering-item construction incl. "
+    "_get_pack_format_path (multitree_sound, proved) and _get_alternativeValueSet (avs_assert_total). "
+    "resolved_iff_unique_valid_partial states the property's second sentence about the document via C07's "
+    "accept_iff_unique: for a state whose tracks passed validation, no valid assignment => the Conflicting ADM error, "
+    "two inequivalent ones => the Ambiguous ADM error, exactly one <=> the allocator accepts it and the outcome is its "
+    "rendering, items returned => exactly one valid assignment; C07's WF of the built problem is derived from the "
+    "validation model (allocProblem_wf: distinct pack/track objects by construction, distinct channels per "
+    "allocation pack from the multitree check) except 'no allocation pack without channels', which stays a "
+    "hypothesis (empty_pack_rejected_though_spec_valid shows why). diagnostics_total / raiseError_adm: "
+    "possible_reference_errors is total for both referencing styles and raise_error raises exactly the error asked "
+    "for. _partial only because message formatting, attrs validators (cross-class references), recursion depth and "
+    "a few parameter values the generators leave unset (rtime/duration, nfcRefDist, absoluteDistance) are outside "
+    "the model. The model is tied to the code on every run by a fault injector (every single fault at every site, "
+    "declaration-order variants, sampled double faults on 19 kinds of generated documents in both referencing "
+    "styles, all inside the model) comparing items count / AdmError message family / exception type directly (the "
+    "real allocator's solutions are no longer replayed); the direct predicates (only AdmError escapes; items only "
+    "when an independent brute-force count of the allocations is exactly 1) run on the same stream, on a "
+    "disagreement-guided stream when the correspondence breaks, and in the thorough tier on triple faults.",
     note="Five families of escaping non-ADM exceptions found by this check were repaired in /repo (0d9f6b4, 03146b0, "
     "592dfc9, 76cae51); each is reported again under its tag internal:<exception>:<function> if it returns. "
     "Outside the quantifier: cross-class references (attrs TypeError) and an AlternativeValueSet instance shared by "
     "two audioObjects (AssertionError in _get_alternativeValueSet; not producible from XML). Trusted: Lean kernel, "
-    "the hand transliteration + correspondence, the abstract allocator (C07).",
-    technique="Lean 4 proof (validation-order lemma chain over an Except-valued transliteration) + fault-injection "
-    "differential correspondence + direct predicate search on the real code",
+    "the hand transliteration + correspondence (incl. C07's allocator model, imported).",
+    technique="Lean 4 proof (validation-order lemma chain over an Except-valued transliteration, C07's allocator "
+    "theorems for the uniqueness statement) + fault-injection differential correspondence + direct predicate search "
+    "on the real code",
     design_ref="DESIGN.md section 4, C14",
 )
